@@ -697,6 +697,23 @@ def run_real(case, res):
                   {'stored': mon.stored_lims,
                    'asm': list(mon.asm_lims.values()),
                    'core': mon.core_lim})
+        # every stored requirement is the one DASSH's own limit function
+        # gives for that assembly with the reactor's boundary treatment
+        # (adiabatic or coupled outer wall), re-run here on the live model
+        with drive.quiet():
+            for ai, a in enumerate(r.assemblies):
+                own = float(d_assembly.calculate_min_dz(
+                    a, r.inlet_temp, a._estimated_T_out,
+                    r._is_adiabatic)[0])
+                res.close('M5c_stored_requirement_is_own_limit',
+                          float(r.min_dz['dz'][ai]) - own, own, 1e-10,
+                          'requirement stored for assembly %d (%.6e) is not '
+                          'its own limit with the reactor\'s outer-wall '
+                          'treatment (%.6e)' % (ai, float(r.min_dz['dz'][ai]),
+                                                own),
+                          dict(key, mech='requirement_not_own_limit',
+                               conv_approx=bool(getattr(
+                                   a.active_region, '_conv_approx', False))))
         q_in = Pu['setup'].get('axial_mesh_size')
         kind0 = 'none'
         if q_in is not None:
